@@ -14,7 +14,8 @@ fn writer_closed(t: &VsTest) -> bool {
     crate::stream_tx::verif_stream_tx__tx::verif_vsock_closed(&t.vsock.user_tx)
 }
 
-// @verif id=VS.poll.closed props=C08,C03,C17 tier=quick timeout=2400 mem=24
+// (disabled: did not finish within 40 min on this machine - tier-C gate, DESIGN 00.5)
+// @verif-disabled id=VS.poll.closed props=C08,C03,C17 tier=quick timeout=2400 mem=24
 // @functions VirtualSocket::poll (whole loop), VirtualSocket::just_before_death, VirtualSocket::state_is_closed
 // @bounds connection state Closed (close handshake finished) or LastAck with wait_for_last_ack = false; nothing buffered, nothing in flight, no incoming packet; all timers idle
 // @asserts the task's future completes in THIS poll with Ok; both stream halves are told the connection is gone; NO datagram is emitted
@@ -44,7 +45,8 @@ fn vs_poll_closed_state_terminates() {
 }
 }
 
-// @verif id=VS.poll.inactive props=C08,C03 tier=quick timeout=2400 mem=24
+// (disabled: did not finish within 40 min on this machine - tier-C gate, DESIGN 00.5)
+// @verif-disabled id=VS.poll.inactive props=C08,C03 tier=quick timeout=2400 mem=24
 // @functions VirtualSocket::poll, VirtualSocket::just_before_death, Timer::expired
 // @bounds Established or FinWait2; remote-inactivity timer expired (anywhere up to 1 s ago); nothing buffered, nothing in flight, no incoming packet
 // @asserts the future completes with the RemoteInactiveForTooLong error in this poll; reader and writer are told (an error is queued for the reader); from Established one FIN is emitted as a courtesy, from FinWait2 nothing
@@ -76,5 +78,53 @@ fn vs_poll_inactivity_timeout_fails_connection() {
     }
     finish(t);
     kani::cover!(true, "end of harness reachable (assumptions satisfiable, no unconditional failure)");
+}
+}
+
+// ---- death path (method level) ---------------------------------------------------------------------
+
+// @verif id=VS.death props=C08,C03,C17 tier=quick timeout=1200 mem=16
+// @functions VirtualSocket::just_before_death, UserRx::enqueue_error, UserRx::mark_vsock_closed, UserTx::mark_vsock_closed, VirtualSocket::send_control_packet
+// @bounds states Established, FinWait1, FinWait2, LastAck, Closed; death with an error (retransmission limit) or without (clean close); a blocked reader and a blocked writer registered; transport ready
+// @asserts both stream halves are told the connection is gone and both blocked parties are woken; with an error the error is queued for the reader (so reads fail instead of hanging or reporting a clean end); AT MOST ONE datagram is emitted: a FIN with the next sequence number, and only when dying with an error before any own FIN was sent; a clean close emits nothing
+// @unwindset make_tx_at=9,__vs::record=37
+crate::verif_tier_c! {
+#[kani::unwind(6)]
+fn vs_just_before_death() {
+    let k: u8 = kani::any();
+    kani::assume(k < 5);
+    let f = OUR_SEQ.wrapping_sub(1);
+    let st = match k {
+        0 => VirtualSocketState::Established,
+        1 => VirtualSocketState::FinWait1 { our_fin: SeqNr(f) },
+        2 => VirtualSocketState::FinWait2,
+        3 => VirtualSocketState::LastAck { our_fin: SeqNr(f), remote_fin: SeqNr(PEER_LAST) },
+        _ => VirtualSocketState::Closed,
+    };
+    let mut t = make_vsock(st, VsConfig { link_mtu: 52, rx_buf: 12, nagle: true, ring: (8, 0, 0), tx_max: 8 });
+    t.vsock.user_tx.locked.write().writer_waker = Some(crate::verif_lib__support::waker(W_WRITER));
+    crate::stream_rx::verif_stream_rx__rx::verif_set_reader_waker(&t.vsock.user_rx, crate::verif_lib__support::waker(W_READER));
+    let with_error: bool = kani::any();
+    let err = Error::MaxRetransmissionsReached;
+    let w = cx_waker();
+    let mut cx = Context::from_waker(&w);
+    t.vsock.just_before_death(&mut cx, if with_error { Some(&err) } else { None });
+    std::mem::forget(err);
+    assert!(reader_closed(&t) && writer_closed(&t), "C08: when the connection ends both stream halves are told");
+    assert!(crate::verif_lib__support::wakes(W_WRITER) == 1 && crate::verif_lib__support::wakes(W_READER) >= 1, "C03: pending reads and writes are woken so that they resolve instead of hanging");
+    let queued = crate::stream_rx::verif_stream_rx__rx::verif_queue_items(&t.vsock.user_rx);
+    assert!(queued == if with_error { 1 } else { 0 }, "C03: an aborted connection queues an error for the reader; a clean close does not");
+    let fin_due = with_error && k == 0;
+    kani::cover!(fin_due, "farewell FIN");
+    if fin_due {
+        assert!(sent_n() == 1, "C08: at most one datagram is emitted while dying");
+        let (h, n) = sent_header(0).unwrap();
+        assert!(h.htype == Type::ST_FIN && h.seq_nr == SeqNr(OUR_SEQ) && n == sent_total(0), "C17: the farewell FIN carries the next sequence number");
+        assert!(t.vsock.seq_nr == SeqNr(OUR_SEQ.wrapping_add(1)), "C17: the FIN consumes a sequence number");
+    } else {
+        assert!(sent_n() == 0, "C08: a connection that already sent its FIN, or closes cleanly, dies silently");
+    }
+    kani::cover!(true, "end of harness reachable (assumptions satisfiable, no unconditional failure)");
+    finish(t);
 }
 }
